@@ -104,6 +104,29 @@ tf!(t32, f32, (a: mb::Cfg), u32, 1, 2);
 tf!(t33, f33, (a: u32), Result<u32, std::fmt::Error>, Ok(1), Ok(2));
 tf!(t34, f34, (a: u32), Result<u32, std::io::Error>, Ok(1), Ok(2));
 
+// Generic helpers: ONE macro call site each, evaluated for several type arguments (a `static`
+// inside a generic function is shared by all its instantiations, so anything a macro memoises per
+// call site would leak from one instantiation to the next).
+#[inline(never)]
+fn gid<T: Default + 'static>(a: T) -> T {
+    let _ = black_box(&a);
+    black_box(T::default())
+}
+#[inline(never)]
+fn gfk<T: Default + 'static>(a: T) -> T {
+    let _ = black_box(&a);
+    black_box(T::default())
+}
+fn g_target<T: Default + 'static>() -> FuncPtr {
+    func!(gid::<T>, fn(T) -> T)
+}
+fn g_fake<T: Default + 'static>() -> FuncPtr {
+    func!(gfk::<T>, fn(T) -> T)
+}
+fn g_fake_closure<T: Default + 'static>() -> FuncPtr {
+    closure!(|_a| T::default(), fn(T) -> T)
+}
+
 macro_rules! ty {
     ($desc:expr, $lc:expr, $t:ident as $fty:ty, [$($tform:expr),*], [$($fform:expr),*]) => {
         Ty {
@@ -155,6 +178,9 @@ pub fn family() -> Vec<Ty> {
         ty!("safe|Rust|(mb::Cfg)|u32", 0, t32 as fn(mb::Cfg) -> u32, [func!(t32, fn(mb::Cfg) -> u32)], [func!(f32, fn(mb::Cfg) -> u32), closure!(|_a| 2, fn(mb::Cfg) -> u32)]),
         ty!("safe|Rust|(u32)|Result<u32,fmt::Error>", 0, t33 as fn(u32) -> Result<u32, std::fmt::Error>, [func!(t33, fn(u32) -> Result<u32, std::fmt::Error>)], [func!(f33, fn(u32) -> Result<u32, std::fmt::Error>)]),
         ty!("safe|Rust|(u32)|Result<u32,io::Error>", 0, t34 as fn(u32) -> Result<u32, std::io::Error>, [func!(t34, fn(u32) -> Result<u32, std::io::Error>)], [func!(f34, fn(u32) -> Result<u32, std::io::Error>)]),
+        Ty { desc: "generic call site|(u16)|u16", lifetime_class: 0, target_addr: || gid::<u16> as fn(u16) -> u16 as usize, target_forms: &[|| g_target::<u16>()], fake_forms: &[|| g_fake::<u16>(), || g_fake_closure::<u16>()] },
+        Ty { desc: "generic call site|(i64)|i64", lifetime_class: 0, target_addr: || gid::<i64> as fn(i64) -> i64 as usize, target_forms: &[|| g_target::<i64>()], fake_forms: &[|| g_fake::<i64>(), || g_fake_closure::<i64>()] },
+        Ty { desc: "generic call site|(i8)|i8", lifetime_class: 0, target_addr: || gid::<i8> as fn(i8) -> i8 as usize, target_forms: &[|| g_target::<i8>()], fake_forms: &[|| g_fake::<i8>(), || g_fake_closure::<i8>()] },
     ]
 }
 
